@@ -74,11 +74,13 @@ func BuildTwoBranch(long bool) *TwoBranch {
 	a4 := add(&w.A, a3, "A4", BOpt{Txs: []*wire.MsgTx{t4}})
 	a5 := add(&w.A, a4, "A5", BOpt{CoinbaseScript: dupScript, CoinbaseOuts: dupOuts}) // re-created txid
 	a6 := add(&w.A, a5, "A6", BOpt{})
-	u7 := spendTx([]wire.OutPoint{op(cb, 0)}, []*wire.TxOut{txOut(sub/2, OpTrue)})
-	a7 := add(&w.A, a6, "A7", BOpt{Txs: []*wire.MsgTx{u7}})
+	// A7 repeats s1 byte for byte: once the coinbase exists again, so can its
+	// descendants, with the same txids (s1:0 was created and spent inside A3,
+	// s1:1 was created in A3 and spent in A4); A8 spends both incarnations' worth
+	a7 := add(&w.A, a6, "A7", BOpt{Txs: []*wire.MsgTx{s1}})
+	u8 := spendTx([]wire.OutPoint{op(cb, 1), op(s1, 0), op(s1, 1)}, []*wire.TxOut{txOut(sub, OpTrue)})
+	a8 := add(&w.A, a7, "A8", BOpt{Txs: []*wire.MsgTx{u8}})
 	if long {
-		u8 := spendTx([]wire.OutPoint{op(cb, 1), op(u7, 0)}, []*wire.TxOut{txOut(sub, OpTrue)})
-		a8 := add(&w.A, a7, "A8", BOpt{Txs: []*wire.MsgTx{u8}})
 		add(&w.A, a8, "A9", BOpt{CoinbaseScript: dupScript, CoinbaseOuts: dupOuts}) // third incarnation
 	}
 	// ---- branch B forks after A2
@@ -96,6 +98,9 @@ func BuildTwoBranch(long bool) *TwoBranch {
 	if long {
 		b9 := add(&w.B, b8, "B9", BOpt{CoinbaseScript: dupScript, CoinbaseOuts: dupOuts})
 		add(&w.B, b9, "B10", BOpt{})
+	} else {
+		// branch B stays the longer one (A ends at height 8)
+		add(&w.B, b8, "B9", BOpt{})
 	}
 	w.Universe = Universe(w.All)
 	return w
